@@ -998,4 +998,100 @@ theorem lcc_reverse_forward_kernel (tauf : ℝ → ℝ → ℝ) (E : Ell ℝ) (L
   rw [hrp, hrt]
   exact htauf
 
+/-- `sn x = x/hyp x` is injective -/
+theorem sn_injective (x y : ℝ) (h : x / hyp x = y / hyp y) : x = y := by
+  have hx := hyp_sq x; have hy := hyp_sq y
+  have px := hyp_pos x; have py := hyp_pos y
+  have h1 : x * hyp y = y * hyp x := by
+    field_simp at h; linarith
+  have h2 : x ^ 2 = y ^ 2 := by
+    have : (x * hyp y) ^ 2 = (y * hyp x) ^ 2 := by rw [h1]
+    rw [mul_pow, mul_pow, hx, hy] at this
+    linarith
+  rcases sq_eq_sq_iff_eq_or_eq_neg.mp h2 with h3 | h3
+  · exact h3
+  · have hh : hyp x = hyp y := by
+      have : hyp x ^ 2 = hyp y ^ 2 := by rw [hx, hy, h2]
+      exact (pow_left_inj₀ px.le py.le (by norm_num)).mp this
+    rw [hh, h3] at h1
+    have : y * hyp y = 0 := by linarith
+    have hy0 : y = 0 := by
+      rcases mul_eq_zero.mp this with h' | h'
+      · exact h'
+      · exact absurd h' py.ne'
+    rw [h3, hy0]; simp
+
+/-- `tbet²/(1 + scbet) = scbet − 1` -/
+theorem sq_over_one_add_hyp (t : ℝ) : RealLike.sq t / (1 + hyp t) = hyp t - 1 := by
+  have h := hyp_sq t; have p := hyp_pos t
+  simp only [sq_real]
+  have : (1 : ℝ) + hyp t ≠ 0 := by positivity
+  field_simp
+  linear_combination -h
+
+/-- **The cone constant of the two-parallel `Init` is Snyder's (15-8)** (oblate ellipsoid): the divided-difference
+    quotient `num/den` equals `(ln sec β2 − ln sec β1)/(ψ2 − ψ1)` with `ψ = arsinh(tan φ) − e atanh(e sin φ)` the isometric
+    latitude, i.e. `(ln m1 − ln m2)/(ln t1 − ln t2)`. -/
+theorem lcc_n_snyder (E : Ell ℝ) (tphi1 tphi2 : ℝ) (h12 : tphi1 ≠ tphi2) (hes : 0 < E.es) (hes1 : E.es < 1)
+    (he2 : E.e2 = E.es ^ 2) (hfm : E.fm ≠ 0) :
+    (lccNraw E (tphi1 / hyp tphi1) tphi1 (hyp tphi1) (E.fm * tphi1) (hyp (E.fm * tphi1))
+        (tphi2 / hyp tphi2) tphi2 (hyp tphi2) (E.fm * tphi2) (hyp (E.fm * tphi2))).1 =
+      (Real.log (hyp (E.fm * tphi2)) - Real.log (hyp (E.fm * tphi1))) /
+        ((Real.arsinh tphi2 - eatanhe (tphi2 / hyp tphi2) E.es) - (Real.arsinh tphi1 - eatanhe (tphi1 / hyp tphi1) E.es)) := by
+  have hΔ : tphi2 - tphi1 ≠ 0 := sub_ne_zero.mpr (Ne.symm h12)
+  have h21 : tphi2 ≠ tphi1 := Ne.symm h12
+  set b1 := E.fm * tphi1 with hb1
+  set b2 := E.fm * tphi2 with hb2
+  have p1 := hyp_pos b1; have p2 := hyp_pos b2
+  have hb21 : b2 ≠ b1 := by
+    intro h; apply h21
+    have : E.fm * (tphi2 - tphi1) = 0 := by rw [hb1, hb2] at h; linarith
+    rcases mul_eq_zero.mp this with h' | h'
+    · exact absurd h' hfm
+    · linarith
+  -- numerator
+  have hnum : Dlog1p (RealLike.sq b2 / (1 + hyp b2)) (RealLike.sq b1 / (1 + hyp b1)) * Dhyp b2 b1 (hyp b2) (hyp b1) * E.fm =
+      (Real.log (hyp b2) - Real.log (hyp b1)) / (tphi2 - tphi1) := by
+    rw [sq_over_one_add_hyp, sq_over_one_add_hyp, Dhyp_dd _ _ hb21]
+    have hbb : b2 - b1 = E.fm * (tphi2 - tphi1) := by rw [hb1, hb2]; ring
+    by_cases hh : hyp b2 = hyp b1
+    · rw [hh]; simp
+    · have hx : (-1 : ℝ) < hyp b2 - 1 := by linarith
+      have hy : (-1 : ℝ) < hyp b1 - 1 := by linarith
+      have hne : hyp b2 - 1 ≠ hyp b1 - 1 := by intro h; apply hh; linarith
+      rw [Dlog1p_dd _ _ hx hy hne]
+      have e1 : (1 : ℝ) + (hyp b2 - 1) = hyp b2 := by ring
+      have e2 : (1 : ℝ) + (hyp b1 - 1) = hyp b1 := by ring
+      rw [e1, e2, hbb]
+      have hd : hyp b2 - 1 - (hyp b1 - 1) ≠ 0 := by intro h; apply hh; linarith
+      have hd2 : hyp b2 - hyp b1 ≠ 0 := sub_ne_zero.mpr hh
+      have e3 : hyp b2 - 1 - (hyp b1 - 1) = hyp b2 - hyp b1 := by ring
+      rw [e3]
+      field_simp
+  -- denominator
+  have hs21 : tphi2 / hyp tphi2 ≠ tphi1 / hyp tphi1 := fun h => h21 (sn_injective _ _ h)
+  have habs : ∀ t : ℝ, |E.es * (t / hyp t)| < 1 := by
+    intro t
+    have ht := abs_lt_hyp t
+    have hp := hyp_pos t
+    rw [abs_mul, abs_of_pos hes, abs_div, abs_of_pos hp]
+    have : |t| / hyp t < 1 := (div_lt_one hp).mpr ht
+    have h0 : 0 ≤ |t| / hyp t := by positivity
+    nlinarith
+  have hden : Dasinh tphi2 tphi1 (hyp tphi2) (hyp tphi1) - Deatanhe E.e2 E.es (tphi2 / hyp tphi2) (tphi1 / hyp tphi1) *
+        Dsn tphi2 tphi1 (tphi2 / hyp tphi2) (tphi1 / hyp tphi1) =
+      ((Real.arsinh tphi2 - eatanhe (tphi2 / hyp tphi2) E.es) - (Real.arsinh tphi1 - eatanhe (tphi1 / hyp tphi1) E.es)) / (tphi2 - tphi1) := by
+    rw [Dasinh_dd _ _ h21, he2, Deatanhe_dd_oblate E.es _ _ hes (habs tphi2) (habs tphi1) hs21, Dsn_dd _ _ h21]
+    have hsd : tphi2 / hyp tphi2 - tphi1 / hyp tphi1 ≠ 0 := sub_ne_zero.mpr hs21
+    field_simp
+    ring
+  unfold lccNraw
+  simp only [one_real] at hnum ⊢
+  rw [hnum, hden]
+  rw [div_div_div_cancel_right₀ hΔ]
+
+example : (0 : ℝ) < (⟨1, 1 / 2⟩ : Ell ℝ).fm ∧ (⟨1, 1 / 2⟩ : Ell ℝ).e2 = 3 / 4 := by
+  simp only [Ell.fm, Ell.e2, one_real, two_real]
+  norm_num
+
 end GeoVerif.Props.C11
